@@ -1,6 +1,8 @@
 import Uquic.Oracle.Frame
 import Uquic.Spec.CloseMon
 import Uquic.Model.Close.IdleSeq
+import Uquic.Model.Close.TrLife
+import Uquic.Generated.CloseTr
 
 /-! Oracle of the `closeu` driver (C17, unit level): see harness/drivers/closeu/closeu_test.go for the ops. -/
 
@@ -231,6 +233,80 @@ def kaseqStep (idl kap kai kps evs impl : String) : StepOut := Id.run do
     ++ (if b kps then ["kaseq:ping-sent"] else []) ++ (if evL.any (fun e => e.1 == 'a') then ["kaseq:rcv-nonae"] else [])
   return { model := s!"pto={pto} seq={",".intercalate out}", tags := tags, fails := fails }
 
+/-- one event of a `trlife` op -/
+def parseTrEv (e : String) : Option Uquic.Model.Close.TrLife.Ev :=
+  let num (t : String) : Option Nat := if t.isEmpty then none else t.toNat?
+  if e == "L" then some .listen
+  else if e == "c" then some .closeListener
+  else if e == "T" then some .close
+  else if e.startsWith "rl" || e.startsWith "rr" then (num (e.drop 2).toString).map (fun k => .replace k (e.startsWith "rl"))
+  else if e.startsWith "a" then (num (e.drop 1).toString).map .add
+  else if e.startsWith "x" then (num (e.drop 1).toString).map .remove
+  else if e.startsWith "w" then (num (e.drop 1).toString).map (fun n => .wait (Int.ofNat n))
+  else none
+
+/-- `trlife`: the model replays the events on `TrLife.Tr` (Remove as the regenerated fact says); two monitors
+    judge what the real Transport printed against ghost state from the ops and the printed handler counts only:
+    `transport_released` - single-use, listener closed (an `L` that succeeded, then `c`), nothing routed => the
+    read loop has returned; `transport_stops_early` - no call but Transport.Close ends the read loop of a transport
+    that is not single-use, whose listener is open, or that still routes something. -/
+def trlifeStep (single created nids expiry evs impl : String) : StepOut := Id.run do
+  let evTxt := evs.splitOn ","
+  let evL := evTxt.filterMap parseTrEv
+  if evL.length ≠ evTxt.length then return { model := "bad-op" }
+  let cfg : Uquic.Model.Close.TrLife.Cfg := ⟨b single, b created, natOf nids, intOf expiry, Uquic.Gen.CloseTr.removeStopsListening⟩
+  let implSeq := (field impl "seq").splitOn ","
+  let mut st : Uquic.Model.Close.TrLife.Tr := {}
+  let mut out : List String := []
+  let mut fails : List (String × String × String) := []
+  -- ghost
+  let mut listening := false      -- a listener is open
+  let mut lnClosed := false       -- the listener of a single-use transport was closed
+  let mut userClosed := false
+  let mut prevStopped := false
+  let mut prevH := 0
+  let mut lastDrain := "-"        -- the latest event that emptied the table or closed the listener
+  let mut reported := false
+  let mut i := 0
+  for e in evL do
+    let bad := Uquic.Model.Close.TrLife.failed cfg st e
+    st := Uquic.Model.Close.TrLife.step cfg st e
+    out := out ++ [s!"{if st.stopped then 1 else 0}{if st.connClosed then 1 else 0}:{st.handlers.length}{if bad then ":E" else ""}"]
+    let txt := evTxt.getD i ""
+    match (implSeq.getD i "").splitOn ":" with
+    | sc :: h :: rest =>
+      let iStopped := sc.startsWith "1"
+      let iH := natOf h
+      let iErr := rest.contains "E"
+      match e with
+      | .listen => if !iErr then listening := true
+      | .closeListener =>
+        if listening then
+          listening := false
+          if b single then lnClosed := true
+          lastDrain := txt
+      | .close => userClosed := true; listening := false
+      | _ => pure ()
+      if iH == 0 && prevH > 0 then lastDrain := txt
+      if iStopped && !prevStopped && !userClosed && (!b single || !lnClosed || iH ≠ 0) then
+        fails := fails ++ [("transport_stops_early", "-", s!"after event {i} ({txt}): the read loop has returned although {if !b single then "the transport is not single-use" else if !lnClosed then "its listener was not closed" else s!"{iH} connection IDs are still routed"}")]
+      if b single && lnClosed && iH == 0 && !iStopped && !reported then
+        reported := true
+        let cls := if lastDrain.startsWith "x" then "remove_path" else "-"
+        fails := fails ++ [("transport_released", cls, s!"after event {i} ({txt}): single-use transport, listener closed, nothing routed (emptied by {lastDrain}), yet the read loop still runs{if b created then " and the socket it created is open" else ""}")]
+      prevStopped := iStopped
+      prevH := iH
+    | _ => fails := fails ++ [("transport_released", "-", s!"after event {i}: unreadable observation {implSeq.getD i ""}")]
+    i := i + 1
+  let tags := [if b single then "trlife:single-use" else "trlife:shared"]
+    ++ (if st.stopped && !st.userClosed then ["trlife:stopped-by-drain"] else [])
+    ++ (if st.userClosed then ["trlife:closed"] else [])
+    ++ (if evL.any (·.isRemove) then ["trlife:remove"] else [])
+    ++ (if evL.any (fun e => match e with | .replace _ _ => true | _ => false) then ["trlife:replace"] else [])
+    ++ (if lnClosed then ["trlife:listener-closed"] else [])
+    ++ (if b created then ["trlife:own-socket"] else [])
+  return { model := s!"seq={",".intercalate out}", tags := tags, fails := fails }
+
 def step (s : OSt) (op impl : String) : OSt × StepOut :=
   let w := words op
   let iw := words impl
@@ -267,6 +343,7 @@ def step (s : OSt) (op impl : String) : OSt × StepOut :=
                  if d = base then "timer:base" else "timer:alarm", if fire = 0 then "timer:past" else "timer:future"]
     (s, { model := s!"{pto} {iw.getD 1 "-"} {fire}", tags := tags })
   | ["kaseq", idl, kap, kai, kps, _rtt, evs] => (s, kaseqStep idl kap kai kps evs impl)
+  | ["trlife", single, created, nids, expiry, evs] => (s, trlifeStep single created nids expiry evs impl)
   | "close" :: _ => (s, closeStep w impl)
   | ["closedconn", kind, n] =>
     let si : StandIn := if kind == "local" then .closedLocal 0 else .closedRemote
